@@ -134,8 +134,10 @@ def rulesOf (b : Bus) : Option ConnId → Option (List PRule)
   | some p => if b.isActive p then (b.conn? p).map (·.policy) else none
   | none => none
 
+/-- `dbus_message_is_method_call (message, DBUS_INTERFACE_DBUS, "Hello")`: the member must be Hello; the interface must be
+    org.freedesktop.DBus *if the message names one* (a call without INTERFACE passes) -/
 def isHello (m : Msg) : Bool :=
-  m.mtype == 1 && m.iface == some BUS_NAME && m.member == some ((/- "Hello" -/ [0x48,0x65,0x6c,0x6c,0x6f] : Bytes))
+  m.mtype == 1 && (m.iface == some BUS_NAME || m.iface.isNone) && m.member == some ((/- "Hello" -/ [0x48,0x65,0x6c,0x6c,0x6f] : Bytes))
 
 def sendAllowed (b : Bus) (sender proposed : Option ConnId) (v : MsgView) (requested : Bool) : Bool :=
   match rulesOf b sender with
